@@ -90,6 +90,8 @@ def check(run, replay=None):
                     exp = min(r.card[2] // 512, (1 << 32) - 1)
                     if res != "ok num %d" % exp:
                         bad.append((s, k, "capacity %s, the card's CSD encodes %d blocks" % (res, exp)))
+                if p[0] == "ny" and res != "ok num %d" % r.card[2]:
+                    bad.append((s, k, "capacity %s, the card's CSD encodes %d bytes" % (res, r.card[2])))
                 overflow.append((s, k, call))
                 continue
             if p[0] == "r":
@@ -116,7 +118,7 @@ def check(run, replay=None):
                         bad.append((s, k, "write changed other blocks / stored other bytes: extra=%s wrong=%s" % (extra, wrong)))
             elif p[0] in ("nb", "ny"):
                 ncap += 1
-                exp = r.card[1] if p[0] == "nb" else r.card[2]
+                exp = min(r.card[1], (1 << 32) - 1) if p[0] == "nb" else r.card[2]
                 if res != "ok num %d" % exp:
                     bad.append((s, k, "capacity %s, the card's CSD (structure version %d) encodes %d" % (res, int(s.csd[0], 16) >> 2, exp)))
             elif p[0] == "gt":
